@@ -393,14 +393,21 @@ def key_of(r):
     return rbytes(r, 32)
 
 
-def http_response(body: bytes, code=200):
+def _spell(name: bytes, sp: int) -> bytes:
+    """field names are case-insensitive (RFC 7230): 0 = Title-Case, 1 = lower, 2 = UPPER"""
+    return name if sp == 0 else (name.lower() if sp == 1 else name.upper())
+
+
+def http_response(body: bytes, code=200, sp=0):
     if not body:
         return b"HTTP/1.1 204 No Content\r\n\r\n"
-    return (b"HTTP/1.1 %d OK\r\nContent-Type: application/hap+json\r\nContent-Length: %d\r\n\r\n" % (code, len(body))) + body
+    return (b"HTTP/1.1 %d OK\r\n%s: application/hap+json\r\n%s: %d\r\n\r\n"
+            % (code, _spell(b"Content-Type", sp), _spell(b"Content-Length", sp), len(body))) + body
 
 
-def http_event(body: bytes):
-    return (b"EVENT/1.0 200 OK\r\nContent-Type: application/hap+json\r\nContent-Length: %d\r\n\r\n" % len(body)) + body
+def http_event(body: bytes, sp=0):
+    return (b"EVENT/1.0 200 OK\r\n%s: application/hap+json\r\n%s: %d\r\n\r\n"
+            % (_spell(b"Content-Type", sp), _spell(b"Content-Length", sp), len(body))) + body
 
 
 def random_cuts(r, n, style=None):
@@ -473,7 +480,7 @@ async def impl_send_session(case):
         calls = link.writes[before:]
         written = b"".join(calls)
         # the accessory answers; its frames are cut at random and the byte stream is read at random
-        plain = http_response(body)
+        plain = http_response(body, sp=(case["seed"] + len(out)) % 3)
         frames = []
         while plain:
             n = rr.choice([1, 7, 500, 1024, 1024, 1024, rr.randrange(1, 1025)])
@@ -613,7 +620,7 @@ async def impl_pipe(case):
         else:
             i = answered
             answered += 1
-            plain = http_response(case["resp_bodies"][i])
+            plain = http_response(case["resp_bodies"][i], sp=(case["seed"] + i) % 3)
             frames = []
             while plain:
                 n = rr.choice([1, 500, 1024, 1024, rr.randrange(1, 1025)])
@@ -923,7 +930,7 @@ async def impl_event(c):
     import random
     rr = random.Random(c["seed"])
     proto, link, conn, _ = make_proto(c["key"], b"\x00" * 32)
-    plain = b"".join(http_event(b) for b in c["bodies"])
+    plain = b"".join(http_event(b, sp=(c["seed"] + j) % 3) for j, b in enumerate(c["bodies"]))
     frames = []
     while plain:
         n = rr.choice([1, 3, 64, 1024, 1024, rr.randrange(1, 1025)])
@@ -944,8 +951,8 @@ async def impl_event(c):
     # expected: events completely contained in the authentic prefix
     auth = b"".join(rx.delivered)
     want, o = [], 0
-    for b in c["bodies"]:
-        o += len(http_event(b))
+    for j, b in enumerate(c["bodies"]):
+        o += len(http_event(b, sp=(c["seed"] + j) % 3))
         if o <= len(auth):
             want.append(b)
     return got, want, link.ended, rx.dead, len(frames)
@@ -1270,12 +1277,16 @@ def oracle_session(c, trace, final):
         return ("send:session-" + rx.why, "reference accessory rejects the written stream")
     got = b"".join(rx.delivered)
     o, emitted = 0, set()
+    torn = False
     for i in issued:
         p = c["reqs"][i]
         if got[o:o + len(p)] == p:
             emitted.add(i)
             o += len(p)
-    if o != len(got) or rx.buf:
+        elif final["ended"] and o < len(got) and p.startswith(got[o:]):
+            o, torn = len(got), True      # the session was torn down with this request partly unsent (the transport drops its buffer)
+            break
+    if o != len(got) or (rx.buf and not final["ended"]):
         return ("send:session-wrong-plaintext", f"the wire decrypts to {len(got)} bytes that are not a sequence of the issued requests")
     if not final["ended"]:
         for i in issued:
@@ -1302,6 +1313,18 @@ def oracle_session(c, trace, final):
                 return ("recv:session-response-differs",
                         f"request {ri}: response of {len(c['msgs'][j][2])} bytes lies in the authentic part of the stream but the request "
                         f"future ended as {final['status'].get(ri)} / {len(final['responses'].get(ri, b''))} bytes")
+    # "ends the session": at the read that carries the frame which fails authentication, not when a write backlog has drained
+    rk = ref.RefReceiver(c["a2c_key"], c["rx0"])
+    for k, op in enumerate(c["ops"][:upto]):
+        if op[0] == "R":
+            rk.feed(op[1])
+            if rk.dead and k < len(trace) and not trace[k]["ended"]:
+                return ("recv:auth-failure-session-not-ended-at-once",
+                        f"read {k} ({len(op[1])} bytes) completes a frame that fails authentication, but after it the session is still open "
+                        f"(transport closing / connection_lost delivered: {trace[k]['ended']}; accessory reading: {not trace[k]['paused']}; "
+                        f"session end at the end of the script: {final['end']})")
+            if rk.dead:
+                break
     closed_by_cancel = upto < len(c["ops"])
     if not rr.dead and not closed_by_cancel and final["ended"]:
         return ("recv:session-ended-without-cause", f"no authentication failure, no cancellation, yet the session ended ({final['end']})")
@@ -1366,6 +1389,19 @@ def gen_wire(tier, r):
         c["ops"] = ops
         c["sndbuf"] = 4096
         c["style"] = "wire-backpressure"
+        cases.append(c)
+    # ... and an inbound frame fails authentication WHILE unsent request bytes are queued (the accessory is not reading):
+    # the session must end at once - asyncio's fatal-error path drops the buffer - not after the backlog has drained
+    for _ in range(6 if quick else 40):
+        k = r.randrange(14, 22)
+        reqs = [rbytes(r, r.choice([4096, 5000, 6000])) for _ in range(k)]
+        msgs = [("E", rbytes(r, r.choice([1, 30, 200]))) for _ in range(r.choice([1, 2, 3]))]
+        msgs += [("A", i, rbytes(r, r.choice([1, 30]))) for i in range(len(reqs))]
+        c = build_session(r, msgs, reqs, [], [r.randrange(1, 300) for _ in range(r.choice([0, 1, 2]))], send_at=[0] * len(reqs),
+                          flip=(r.randrange(1 << 30), r.randrange(8)))
+        c["ops"] = [("Z",)] + c["ops"]
+        c["sndbuf"] = 4096
+        c["style"] = "wire-backlog+corrupt"
         cases.append(c)
     return cases
 
@@ -1751,8 +1787,15 @@ def run(ctx):
              [(t["ended"], t["events"], t["responses"]) for t in trace])
         b_ = (lfinal["events"], lfinal["responses"], lfinal["status"], lfinal["written"], lfinal["ended"], lfinal["end"],
               [(t["ended"], t["events"], t["responses"]) for t in ltrace])
+        if c["style"] == "wire-backlog+corrupt":
+            # the real transport drops its unsent buffer when the session is torn down; Link has no buffer: what the
+            # accessory has READ differs by construction, everything else must agree
+            a, b_ = a[:3] + a[4:], b_[:3] + b_[4:]
         if a != b_:
-            which = [n for n, x, y in zip(("events", "responses", "status", "written", "ended", "end", "per-op"), a, b_) if x != y]
+            names = ("events", "responses", "status", "written", "ended", "end", "per-op")
+            if len(a) == 6:
+                names = names[:3] + names[4:]
+            which = [n for n, x, y in zip(names, a, b_) if x != y]
             report("wire:link-emulation-differs", f"the real asyncio transport and harness Link disagree on {which} for a "
                    f"{c['style']} script ({' '.join(rep['script'])[:120]}): real end={final['end']} status={final['status']}, "
                    f"Link end={lfinal['end']} status={lfinal['status']}"[:400], False,
